@@ -665,6 +665,17 @@ class NPShim(types.ModuleType):
         dt = np.dtype(dtype).type if dtype is not None else a.dtype.type
         return SymArray(a.astype(object), dt, self._dom)
 
+    def _dtx(self, x):
+        if isinstance(x, FakeDtype):
+            return np.dtype(x.type)
+        if isinstance(x, SymArray):
+            return np.dtype(x._dt)
+        return x
+
+    def result_type(self, *a): return np.result_type(*[self._dtx(x) for x in a])
+    def promote_types(self, a, b): return np.promote_types(self._dtx(a), self._dtx(b))
+    def issubdtype(self, a, b): return np.issubdtype(self._dtx(a), self._dtx(b))
+    def can_cast(self, a, b, *r, **k): return np.can_cast(self._dtx(a), self._dtx(b), *r, **k)
     def finfo(self, t): return np.finfo(self._dtf(t))
     def iinfo(self, t): return np.iinfo(self._dtf(t))
     def zeros(self, shape, dtype=float, **k): return self._mk(np.zeros(shape, dtype=self._dtf(dtype)))
@@ -817,8 +828,22 @@ class shimmed:
         self.extra = extra or {}
         self.saved = []
 
+    @staticmethod
+    def _clear_caches(modules):
+        # functools.lru_cache'd helpers of the modules under proof (tables of basis matrices, index lists): a table built while `np` is the shim holds proxy
+        # arrays and would leak into later native runs (and a natively built one into the symbolic run). Cleared on the way in and on the way out.
+        for m in modules:
+            for val in list(vars(m).values()):
+                cc = getattr(val, 'cache_clear', None)
+                if callable(cc):
+                    try:
+                        cc()
+                    except Exception:
+                        pass
+
     def __enter__(self):
         shim = NPShim(self.dom)
+        self._clear_caches(self.modules)
         for m in self.modules:
             for name, val in list(vars(m).items()):
                 if val is np:
@@ -833,6 +858,7 @@ class shimmed:
         for m, name, val in reversed(self.saved):
             setattr(m, name, val)
         self.saved = []
+        self._clear_caches(self.modules)
         return False
 
 
